@@ -5,7 +5,7 @@ from props import _rel
 PID = "C01"
 PROPS_FILE = "Props/C01.v"
 PREFIX = "C01"
-KNOWN = {1: "C01-gap-skip"}
+KNOWN = {}
 RULE = ("a case is one scenario on the simulated real stack (two participants, one RELIABLE writer and one RELIABLE "
         "reader, VOLATILE or TRANSIENT_LOCAL, matched before the first write or late, KEEP_ALL / KEEP_LAST 1-3, "
         "1-3 instances, fragment size 64/128/1344, 1-13 writes of sizes around the fragment boundary): after "
@@ -19,8 +19,8 @@ gen = _rel.gen_for("C01")
 
 def corpus():
     return [
-        # witness of C01-gap-skip (D9): KEEP_LAST 1, two instances, history {1,3}, late TRANSIENT_LOCAL reader,
-        # DATA(1) lost, GAP(2) delivered: sample 1 is never delivered, yet acknowledged
+        # the schedule that exposed C01-gap-skip (repaired by 91937ff): KEEP_LAST 1, two instances, history {1,3}, late
+        # TRANSIENT_LOCAL reader, DATA(1) lost: the non-contiguous GAP(2) is ignored, one round delivers 1 and 3
         parse_line(PRE % (1344, 1, 1, 1) + " ; w 0 1 10 11 ; w 0 2 10 22 ; w 0 2 10 33 ; R 0 1 rel=1 dur=1 ; netm ; ha 0 ; q ; "
                    "dr 0 ; q ; adv 250000000 ; pu ; adv 250000000 ; pu ; adv 250000000 ; pu ; hp ; t 0 0 ; wa 0 ; q"),
         # one fragment of a fragmented sample lost / the whole fragmented sample lost: repaired (fixed 9534038, 46bd1ab)
@@ -49,9 +49,13 @@ MANIFEST = {
              "deliveries in any order, drops, duplications, matches and deletions (fragmented samples included) the "
              "list the reader presents is a subsequence of the publication log, in publication order, strictly "
              "increasing in sequence number (at most once) and payload-identical; by induction over the schedule with "
-             "an authenticity invariant on everything in flight or buffered. LIVENESS: the statement at full strength "
-             "is stated and refuted by a witness (known finding C01-gap-skip: a GAP raises highest_received past an "
-             "undelivered, still held sample). Proved part (stage 1: KEEP_ALL writer, samples that fit one DATA "
+             "an authenticity invariant on everything in flight or buffered. NOTHING IS SKIPPED, unbounded, every history QoS "
+             "(KEEP_LAST with several instances and removals included): every sequence number the reliable reader accounts "
+             "for (up to available_changes_max, the base of its ACKNACKs) has been presented as far as the writer still "
+             "holds it and it is relevant; invariant: a GAP in flight only covers sequence numbers at which nothing "
+             "relevant is held, a HEARTBEAT's first sequence number is at or below everything held, and a GAP only "
+             "advances the reader when it is contiguous with what is accounted for (repair 91937ff of the former finding "
+             "C01-gap-skip). LIVENESS, proved part (stage 1: KEEP_ALL writer, samples that fit one DATA "
              "submessage, no removal, reader not deleted, at most 256 samples): after ANY such schedule - all loss, "
              "duplication, reordering and delay patterns, late joiners - one heartbeat period (five worker ticks) and "
              "ANY loss-free delivery sequence (single deliveries in any order, FIFO pumps), whenever nothing is queued "
@@ -65,9 +69,9 @@ MANIFEST = {
              "(in-order duplicate-free checksum-identical subsequence; after the healing rounds every retained "
              "relevant sample was presented) judges the real observations, fragmented samples included."),
     "note": ("Trusted: Coq kernel, hand model RelModel.v (correspondence-checked on every run), simulation harness, "
-             "generator. Axioms: none. Known finding C01-gap-skip (KEEP_LAST histories with several instances). "
-             "Liveness for fragmented samples and KEEP_LAST with one instance is covered by the correspondence run "
-             "only (fragment repair works since 9534038/46bd1ab; byte-level reassembly is C05); termination of the "
+             "generator. Axioms: none. Former finding C01-gap-skip is repaired (91937ff); its schedule is in the corpus. "
+             "Liveness for fragmented samples and KEEP_LAST histories (holes) is covered by the oracle on every scenario "
+             "and by closed examples only (fragment repair works since 9534038/46bd1ab; byte-level reassembly is C05); termination of the "
              "healing exchange is observed on every scenario, not proved. One writer/reader pair."),
-    "technique": "Coq proof (invariants over all schedules, healing invariant, refutation witness) + differential correspondence on a deterministic whole-stack simulation",
+    "technique": "Coq proof (invariants over all schedules, healing invariant) + differential correspondence on a deterministic whole-stack simulation",
 }
